@@ -234,6 +234,40 @@ func genGraphCases(prop string, seed int64, n int, thorough bool) []GCase {
 		c.Ops = append(c.Ops, GOp{Kind: "detect"})
 		return c
 	}
+	// histories of mutations (also a share of the C05 and C06 runs: replaced nodes, repeated dependencies,
+	// rejected additions followed by queries)
+	histories := func(count int) {
+		for i := 0; i < count; i++ {
+			np := 3 + rnd.Intn(4)
+			c := GCase{NPool: np}
+			deps := func() []int {
+				var ds []int
+				for k := rnd.Intn(4); k > 0; k-- {
+					ds = append(ds, rnd.Intn(np))
+				}
+				return ds
+			}
+			for len(c.Ops) < 4+rnd.Intn(12) {
+				x := rnd.Float64()
+				switch {
+				case x < 0.42:
+					c.Ops = append(c.Ops, GOp{Kind: "add", U: rnd.Intn(np), Deps: deps()})
+				case x < 0.62:
+					for k := 1 + rnd.Intn(3); k > 0; k-- {
+						c.Ops = append(c.Ops, GOp{Kind: "deferred", U: rnd.Intn(np), Deps: deps()})
+					}
+					c.Ops = append(c.Ops, GOp{Kind: "detect"})
+				case x < 0.82:
+					c.Ops = append(c.Ops, GOp{Kind: "remove", U: rnd.Intn(np)})
+				case x < 0.87:
+					c.Ops = append(c.Ops, GOp{Kind: "clear"})
+				default:
+					c.Ops = append(c.Ops, GOp{Kind: "detect"})
+				}
+			}
+			cases = append(cases, c)
+		}
+	}
 	switch prop {
 	case "C05":
 		if thorough {
@@ -266,6 +300,7 @@ func genGraphCases(prop string, seed int64, n int, thorough bool) []GCase {
 			}
 			cases = append(cases, whole(np, adj, true))
 		}
+		histories(n / 3)
 	case "C06":
 		// DAGs: edges only from higher to lower rank
 		for i := 0; i < n; i++ {
@@ -286,6 +321,7 @@ func genGraphCases(prop string, seed int64, n int, thorough bool) []GCase {
 			}
 			cases = append(cases, whole(np, adj, true))
 		}
+		histories(n / 3)
 	default: // C19: histories of mutations
 		if thorough {
 			// every sequence of up to 3 operations over 3 identities with dependency lists of length <= 1
@@ -318,36 +354,7 @@ func genGraphCases(prop string, seed int64, n int, thorough bool) []GCase {
 			}
 			rec(nil, 3)
 		}
-		for i := 0; i < n; i++ {
-			np := 3 + rnd.Intn(4)
-			c := GCase{NPool: np}
-			deps := func() []int {
-				var ds []int
-				for k := rnd.Intn(4); k > 0; k-- {
-					ds = append(ds, rnd.Intn(np))
-				}
-				return ds
-			}
-			for len(c.Ops) < 4+rnd.Intn(12) {
-				x := rnd.Float64()
-				switch {
-				case x < 0.42:
-					c.Ops = append(c.Ops, GOp{Kind: "add", U: rnd.Intn(np), Deps: deps()})
-				case x < 0.62:
-					for k := 1 + rnd.Intn(3); k > 0; k-- {
-						c.Ops = append(c.Ops, GOp{Kind: "deferred", U: rnd.Intn(np), Deps: deps()})
-					}
-					c.Ops = append(c.Ops, GOp{Kind: "detect"})
-				case x < 0.82:
-					c.Ops = append(c.Ops, GOp{Kind: "remove", U: rnd.Intn(np)})
-				case x < 0.87:
-					c.Ops = append(c.Ops, GOp{Kind: "clear"})
-				default:
-					c.Ops = append(c.Ops, GOp{Kind: "detect"})
-				}
-			}
-			cases = append(cases, c)
-		}
+		histories(n)
 	}
 	for i := range cases {
 		cases[i].ID = i
